@@ -215,6 +215,18 @@ def run(chk, ctx):
                    detail={'needs': 'operand in {0, 1}: a bool guard, a '
                            'normalisation or a comparison'}, site=site)
         chk.floor('C10.B', 1, 'bit encoder paths')
+    from .. import tsrules
+    for cons, okk, why in tsrules.decimal_sign_rule(ctx):
+        chk.ob('C10.L', cons, okk, why, site='pamqp/encode.py::decimal')
+    for cons, okk, why in tsrules.table_key_rule(ctx):
+        if okk is not None:
+            chk.ob('C10.L', cons, okk, why,
+                   detail={'documented_exception': 'only keys longer than '
+                           '128 characters are truncated'},
+                   site='pamqp/encode.py::field_table')
+    tsres, _n = tsrules.timestamp_operands(ctx)
+    for cons, okk, why in tsres:
+        chk.ob('C10.L', cons, okk, why, site='pamqp/encode.py::timestamp')
     # key truncation must be announced
     truncation_check(chk, ctx)
     chk.assume('values of foreign types that subclass the guarded types '
